@@ -34,7 +34,7 @@ PROPS = {
     ),
     'C02': dict(
         title='Reverse stepping exactly undoes forward stepping',
-        verus_units=['state'],
+        verus_units=['state', 'arith', 'collections', 'cursor'],
         kani_groups=[],
         frame_scan=True,
         design_ref='DESIGN.md section 5 / C02',
